@@ -23,6 +23,7 @@ class Ring:
         self.names = []          # index -> name
         self.rel = {}            # atom index -> radicand Poly
         self.atom_by_rad = {}    # radicand key -> atom Poly
+        self.sqcands = {}        # key -> Poly: candidate factors to pull out of square roots
         self._zvars = []         # index -> z3 Real (filled by scalar.Ctx)
 
     def var(self, name):
@@ -116,6 +117,10 @@ class Poly:
                 if e % 2 and v not in rel:
                     return False
         return True
+
+    def is_strictly_positive(self):
+        """syntactic certificate of > 0: non-negative by is_sos_like and a positive constant term"""
+        return self.t.get((), F0) > 0 and self.is_sos_like()
 
     # -- ring operations --------------------------------------------------
     def __add__(self, o):
